@@ -385,7 +385,7 @@ impl Check for C10 {
         out
     }
     fn rule() -> &'static str {
-        "two kinds of runs: (perm) a simulated world (as C05) through the real lifecycle stage and then the real sorter with the real table, a shifted/partial stale table (start times moved by up to 100 s, or set to 0 or u64::MAX) or an empty table, window in {1,2,3,10,255} s, minimum delay in {0, 1 ms, 2 s, 20 s}: output must be a permutation with every message unchanged; (order) 1-3 ECUs x 1-3 lifecycles with given start times, reception times never decreasing (ties included), per-message buffering delay within the configured minimum (incl. exactly at the bound and 'negative' = capped), control requests interspersed: output must be ordered by (calculated time, original position); precondition re-checked on the concrete case; non-trivial = the sorter had to move at least one message / more than one message; distinct = hash of the case"
+        "two kinds of runs: (perm) a simulated world (as C05) through the real lifecycle stage and then the real sorter with the real table, a shifted/partial stale table (start times moved by up to 100 s, or set to 0 or u64::MAX) or an empty table, window in {1,2,3,10,255} s, minimum delay in {0, 1 ms, 2 s, 20 s}: output must be a permutation with every message unchanged; (order) 1-3 ECUs x 1-3 lifecycles with given start times (a fifth of them resume lifecycles whose start lies before the start of the lifecycle they resumed, so that start and displayed start differ), reception times never decreasing (ties included), per-message buffering delay within the configured minimum (incl. exactly at the bound and 'negative' = capped), control requests interspersed: output must be ordered by (calculated time, original position); precondition re-checked on the concrete case; non-trivial = the sorter had to move at least one message / more than one message; distinct = hash of the case"
     }
     fn assumptions() -> Vec<&'static str> {
         vec!["calculated time as stated: min(lifecycle start + timestamp, reception time), reception time for control requests; lifecycle start taken from the table handed to the sorter"]
